@@ -266,6 +266,12 @@ def main():
     if prop not in PROPS:
         print("unknown or unclaimed property", prop)
         sys.exit(64)
+    if PROPS[prop].get("driver") == "c20":
+        from . import c20
+        if sys.argv[2] == "--replay":
+            sys.exit(c20.replay(prop, sys.argv[3]))
+        tier = sys.argv[2] if sys.argv[2] in ("quick", "thorough") else (os.environ.get("VERIF_TIER") or "quick")
+        sys.exit(c20.run_property(prop, tier, int(os.environ.get("VERIF_SEED", "0"))))
     if sys.argv[2] == "--replay":
         sys.exit(replay(prop, sys.argv[3]))
     tier = os.environ.get("VERIF_TIER") or sys.argv[2]
